@@ -124,7 +124,14 @@ fn c09_update_rotation_timestamp() {
 // contract of `auth::rotate_signers` (C03)
 // ------------------------------------------------------------------------------------------------
 /// contract stub used by contract::rotate_signers / initialize_auth harnesses
+/// verdict of the last `rotate_signers_contract` call (None: never called)
+pub static mut RS_RESULT: Option<Result<(), ContractError>> = None;
 pub fn rotate_signers_contract(env: &Env, new_signers: &WeightedSigners, enforce: bool) -> Result<(), ContractError> {
+    let r = rotate_signers_contract_inner(env, new_signers, enforce);
+    unsafe { RS_RESULT = Some(r) };
+    r
+}
+fn rotate_signers_contract_inner(env: &Env, new_signers: &WeightedSigners, enforce: bool) -> Result<(), ContractError> {
     shim::log_internal("auth::rotate_signers", Words::of(&(new_signers.clone(), enforce)));
     if !(wf(new_signers) && kani::any()) {
         return Err(any_error());
@@ -138,10 +145,13 @@ pub fn rotate_signers_contract(env: &Env, new_signers: &WeightedSigners, enforce
     if e0 == u64::MAX {
         shim::trap();
     }
+    let e1 = e0 + 1;
     if pers().post_has(&DataKey::EpochBySignersHash(hsh)) {
+        // a refusal may leave a half-done installation behind (the real function bumps the epoch before
+        // its duplicate check and relies on the caller returning the error, so that the host rolls back)
+        env.storage().instance().set(&DataKey::Epoch, &e1);
         return Err(ContractError::DuplicateSigners);
     }
-    let e1 = e0 + 1;
     env.storage().instance().set(&DataKey::Epoch, &e1);
     env.storage().persistent().set(&DataKey::SignersHashByEpoch(e1), &hsh);
     env.storage().persistent().set(&DataKey::EpochBySignersHash(hsh), &e1);
@@ -276,14 +286,18 @@ pub fn rotate_signers_counting(env: &Env, new_signers: &WeightedSigners, enforce
         if enforce {
             ROTATE_ENFORCED = true;
         }
-        if ROTATE_CALLS - 1 == ROTATE_FAIL_AT {
-            return Err(any_error());
-        }
     }
     let e0: u64 = match inst().post(&DataKey::Epoch) {
         Some(e) => e,
         None => shim::trap(),
     };
+    if unsafe { ROTATE_CALLS - 1 == ROTATE_FAIL_AT } {
+        // a refusal may leave a half-done installation behind (epoch already bumped): see rotate_signers_contract
+        if kani::any() {
+            env.storage().instance().set(&DataKey::Epoch, &(e0 + 1));
+        }
+        return Err(any_error());
+    }
     env.storage().instance().set(&DataKey::Epoch, &(e0 + 1));
     let _ = new_signers;
     Ok(())
@@ -313,6 +327,7 @@ fn ctor_case(n: u32) -> bool {
             soroban_sdk::obl!(n >= 1, "OBL C03.ctor_needs_signers: construction with no signer set fails");
             soroban_sdk::obl!(calls == n && !unsafe { ROTATE_ENFORCED }, "OBL C03.ctor_every_set_rotated: every initial set goes through rotate_signers(.., enforce=false), once");
             soroban_sdk::obl!(inst().post::<_, u64>(&DataKey::Epoch) == Some(n as u64), "OBL C03.ctor_epoch_counts_sets: epoch starts at 0 and ends at the number of installed sets");
+            soroban_sdk::obl!(unsafe { ROTATE_FAIL_AT } >= calls, "OBL C03.ctor_propagates_refusal: construction succeeds only if every installation succeeded (a refused set is never skipped: the epoch would count a set that was not installed)");
             soroban_sdk::obl!(inst().post::<_, u64>(&DataKey::PreviousSignerRetention) == Some(retention), "OBL C03.ctor_retention_stored");
             soroban_sdk::obl!(inst().post::<_, BytesN<32>>(&DataKey::DomainSeparator) == Some(domain), "OBL C03.ctor_domain_stored");
             soroban_sdk::obl!(inst().post::<_, u64>(&DataKey::MinimumRotationDelay) == Some(min_delay), "OBL C03.ctor_delay_stored");
